@@ -17,7 +17,6 @@ E1 (input-lattice) explorer.  Two kinds of cases:
 import itertools
 import numpy as np
 from onsager import cluster
-from mc import catalog
 from mc.refmodels import energy as en
 
 PID = 'C31'
@@ -33,7 +32,7 @@ ASSUMPTIONS = ['crys.G is the space group (checked by C18); its action on sites 
                'cutoffs equal to a neighbour distance (ties) are excluded',
                'vacancy-TS reference follows the four variants documented in the comments of makeTSclusters']
 
-CRYSTALS = ['FCC', 'BCC', 'HCP', 'B2AB', 'FCC_O']
+CRYSTALS = ['FCC', 'BCC', 'HCP', 'B2AB', 'FCC_O', 'SKEWSQ']    # SKEWSQ: skewed noreduce cell (design finding F9)
 
 
 def _nshell(tier): return 3 if tier == 'quick' else 4
@@ -52,7 +51,7 @@ def cases(tier):
     out = []
     ns = _nshell(tier)
     for name in CRYSTALS:
-        nchem = len(catalog.get(name).basis)
+        nchem = len(en.get_crystal(name).basis)
         for icut in range(ns + 1):
             for order in range(1, _maxorder(tier, icut) + 1):
                 if order == 1 and icut > 0: continue
@@ -159,7 +158,10 @@ def compare_sets(crys, ga, generated, reference, label, base, viols, stats, extr
                           'detail': {'example': list(map(list, en.key_sites(k))), 'n': len(ks)}})
     orbs, escaped = en.orbits(ga, reference, extra)
     if escaped:
-        raise RuntimeError('reference set {} is not closed under the group: {}'.format(label, escaped[0]))
+        if label == 'enum': raise RuntimeError('brute-force set is not closed under the group: {}'.format(escaped[0]))
+        # derived reference built from a generated expansion that is itself not closed (reported by the enum oracles)
+        viols.append({'oracle': label + '-input-expansion-not-closed', 'key': base, 'detail': str(escaped[0])[:300]})
+        return union
     orbset = set(orbs)
     for kset, clset in zip(gkeys, generated):
         stats['transitions'] += 1
@@ -174,7 +176,7 @@ def compare_sets(crys, ga, generated, reference, label, base, viols, stats, extr
 
 
 def eval_enum(case):
-    crys = catalog.get(case['crystal'])
+    crys = en.get_crystal(case['crystal'])
     ga = en.GroupAction(crys)
     nsh = max(case['icut'], 1) + 1
     cuts = en.cutoffs(crys, nsh)
@@ -192,15 +194,16 @@ def eval_enum(case):
             sites = en.cluster_sites(cl)
             if len(set(sites)) != len(sites) or len(cl) != len(sites) or len(sites) > order or any(s[0] in excl for s in sites):
                 viols.append({'oracle': 'enum-illformed', 'key': '{}:{}'.format(base, en.descriptor(crys, 'C', sites)), 'detail': str(cl)})
-    compare_sets(crys, ga, clexp, refall, 'enum', base, viols, stats)
+    genall = compare_sets(crys, ga, clexp, refall, 'enum', base, viols, stats)
+    # the derived (vacancy / TS) sets are specified relative to the expansion they are given
     nontriv = 1 if any(ref[k] for k in ref if k >= 2) else 0
     # ---- vacancy and TS clusters for every non-excluded species
     for chem in range(len(crys.basis)):
         if chem in excl: continue
         cname = crys.chemistry[chem]
         vexp = cluster.makeVacancyClusters(crys, chem, clexp); execs += 1
-        vref = ref_vacancy(refall, chem)
-        compare_sets(crys, ga, vexp, vref, 'vac', base + ':' + cname, viols, stats)
+        vref = ref_vacancy(genall, chem)
+        vgen = compare_sets(crys, ga, vexp, vref, 'vac', base + ':' + cname, viols, stats)
         for cl in (c for s in vexp for c in s):
             if any(int(x) != 0 for x in cl.vacancy().R) or cl.vacancy().ci[0] != chem:
                 viols.append({'oracle': 'vac-not-at-origin', 'key': base + ':' + cname, 'detail': str(cl)}); break
@@ -213,9 +216,9 @@ def eval_enum(case):
             pairs = jump_pairs(crys, chem, jn)
             jbase = '{}:{}:jump<{:.3f}'.format(base, cname, jcut)
             ts = cluster.makeTSclusters(crys, chem, jn, clexp); execs += 1
-            compare_sets(crys, ga, ts, ref_ts(refall, chem, pairs), 'ts', jbase, viols, stats)
+            compare_sets(crys, ga, ts, ref_ts(genall, chem, pairs), 'ts', jbase, viols, stats)
             vts = cluster.makeTSclusters(crys, chem, jn, vexp); execs += 1
-            compare_sets(crys, ga, vts, ref_vts(vref, chem, pairs), 'vts', jbase, viols, stats, extra=vts_reverse)
+            compare_sets(crys, ga, vts, ref_vts(vgen, chem, pairs), 'vts', jbase, viols, stats, extra=vts_reverse)
             for cl in (c for s in ts + vts for c in s):
                 if any(int(x) != 0 for x in cl.transitionstate()[0].R):
                     viols.append({'oracle': 'ts-initial-not-at-origin', 'key': jbase, 'detail': str(cl)}); break
@@ -233,7 +236,7 @@ def make(kind, sites):
 
 
 def eval_identity(case):
-    crys = catalog.get(case['crystal'])
+    crys = en.get_crystal(case['crystal'])
     cuts = en.cutoffs(crys, case['icut'] + 1)
     cutoff = cuts[case['icut']]
     base = '{}:cut{}'.format(case['crystal'], case['icut'])
